@@ -35,9 +35,26 @@ KINDS = ["crash_before", "crash_after", "EIO", "ENOSPC", "EACCES"]
 RESOLUTIONS = ["strict", "power-kept", "power-dropped", "power-prefix", "power-zerofill"]
 
 
+SAVE_WINDOW = frozenset(["save_sensors", "_save_sensors", "_perform_file_action", "_save_json", "_save_pickle"])
+
+
 def gen(rng, tier, index):
     version = rng.choice(["1.4", "1.5", "2.0", "2.1", "2.2"])
     fmt = rng.choice(["pickle", "json"])
+    if rng.random() < 0.15:
+        # two saves of one process overlap (the scheduled save is still running when stop() - or the next tick -
+        # saves again, with a state change in between), pre-emptive schedule inside the save code, process
+        # death at a drawn file-system operation of either of them (or none)
+        return {
+            "cfg": {"mode": "overlap", "version": version, "fmt": fmt, "bufsize": rng.choice([16, 64, 512, 8192]),
+                    "kind": rng.choice(["crash_before", "crash_after", "none"]), "resolution": rng.choice(RESOLUTIONS),
+                    "journal_frac": rng.random(), "cut": rng.random(), "point": rng.random() * 2.2,
+                    "sched": {"policy": "rw", "seed": rng.getrandbits(32), "p": rng.choice([0.05, 0.15, 0.4])},
+                    "relpath": rng.choice([None, None, "mysensors"])},
+            "old": diskutil.state_lines(rng, version, rng.randint(2, 12)),
+            "new": diskutil.state_lines(rng, version, rng.randint(1, 8)) + [f"{rng.choice([1, 2, 3])};255;0;0;17;2.{rng.randrange(3)}"],
+            "stale": [f"{rng.choice([4, 5, 6])};255;0;0;17;2.{rng.randrange(3)}"],
+        }
     return {
         "cfg": {"version": version, "fmt": fmt, "prior": rng.choice(PRIORS), "bufsize": rng.choice([16, 64, 512, 8192, 8192]),
                 "kind": rng.choice(KINDS), "resolution": rng.choice(RESOLUTIONS), "journal_frac": rng.random(),
@@ -54,8 +71,117 @@ def _vio(cls, detail, **sig):
     return {"class": cls, "detail": detail, "signature": sig, "owner": "C12"}
 
 
+def run_overlap(case):
+    """Two overlapping saves of one process, optional process death inside either."""
+    cfg = case["cfg"]
+    dw = diskutil.DiskWorld(cfg["version"], cfg["fmt"], bufsize=cfg["bufsize"], relpath=cfg.get("relpath"), sched=cfg["sched"],
+                            max_steps=1_500_000, window=lambda code: code.co_name in SAVE_WINDOW)
+    violations, probes, faults = [], {}, {}
+    incomplete, key, sample, nontrivial = None, None, None, False
+    try:
+        try:
+            fs = dw.fs
+            sim = dw.world.sim
+            gw = dw.gateway()
+            dw.feed(gw, case["old"])
+            status, exc = dw.save(gw)
+            assert status == "ok", (status, exc)
+            s_old = diskutil.proj(gw)
+            fs.sync_all()
+            dw.feed(gw, case["new"])
+            s_mid = diskutil.proj(gw)
+            gw.tasks.persistence.need_save = True
+            dry = fs.clone()
+            dw.use(dry)
+            dry.arm({})
+            status, exc = dw.save(gw)
+            assert status == "ok", (status, exc)
+            n_ops = len(dry.oplog)
+            dw.use(fs)
+            gw.tasks.persistence.need_save = True
+            kind = cfg["kind"]
+            n = int(cfg["point"] * n_ops)
+            fs.die_on_crash = True
+            fs.arm({n: kind} if kind != "none" else {})
+            outcome = {}
+
+            def saver(tag, lines):
+                try:
+                    for line in lines:
+                        gw.logic(line)
+                    gw.tasks.persistence.save_sensors()
+                    outcome[tag] = "ok"
+                except simfs.Crash:
+                    outcome[tag] = "crash"
+                except Exception as err:  # pylint: disable=broad-except
+                    outcome[tag] = "error " + repr(err)
+
+            th_a = sim.spawn(saver, "A", [], role="timer")
+            th_b = sim.spawn(saver, "B", case["stale"], role="stopper")
+            th_a.join()
+            th_b.join()
+            s_new = diskutil.proj(gw)
+            fired = list(fs.fired)
+            fs.disarm()
+            crashed = "crash" in outcome.values()
+            faults[kind] = 1
+            probes["overlap_runs"] = 1
+            if sim.preemptions:
+                probes["overlap_preempted"] = 1
+            nontrivial = bool(sim.preemptions)
+            key = f"overlap|{cfg['fmt']}|{kind}|{cfg['resolution'] if crashed else 'n/a'}|{sorted(outcome.values())}|{min(sim.preemptions, 6)}"
+            sample = {"cfg": cfg, "outcome": outcome, "fired": fired, "preemptions": sim.preemptions,
+                      "old_nodes": sorted(s_old), "mid_nodes": sorted(s_mid), "new_nodes": sorted(s_new)}
+            if crashed:
+                probes["crash_runs"] = 1
+                if cfg["resolution"] == "strict":
+                    after = fs.crash("strict")
+                else:
+                    mode = cfg["resolution"].split("-")[1]
+                    keep = int(round(cfg["journal_frac"] * len(fs.journal)))
+                    after = fs.crash("powerloss", journal_keep=keep, data_mode=mode, cut=cfg["cut"])
+                    faults["powerloss_" + mode] = 1
+                allowed = [("old", s_old), ("mid", s_mid), ("new", s_new)]
+            else:
+                after = fs.clone()
+                allowed = [("mid", s_mid), ("new", s_new)]
+                for tag, res in sorted(outcome.items()):
+                    if res.startswith("error"):
+                        probes["overlap_save_raised"] = 1
+            fs.dead = False
+            dw.use(after)
+            gw_b = dw.gateway()
+            err = dw.load(gw_b)
+            got = diskutil.proj(gw_b)
+            where = {"when": "overlapping saves", "outcome": outcome, "fired": fired, "fmt": cfg["fmt"], "resolution": cfg["resolution"],
+                     "files": {p.split("/")[-1]: len(d) for p, d in after.listing().items()}}
+            if err is not None:
+                violations.append(_vio("load-raised", dict(where, exc=repr(err)), exc=type(err).__name__, when="overlap"))
+            else:
+                hit = next((name for name, state in allowed if got == state), None)
+                if hit is None:
+                    cls = "loaded-empty" if not got else "loaded-partial-or-mixed"
+                    violations.append(_vio(cls, dict(where, got_nodes=sorted(got), allowed={name: sorted(st) for name, st in allowed}), when="overlap"))
+                else:
+                    probes["loaded_" + ("new" if hit != "old" else "old")] = 1
+        except kernel.SimAbort as exc:
+            incomplete = str(exc)
+        except kernel.Deadlock as exc:
+            incomplete = "deadlock " + str(exc)[:100]
+    finally:
+        sim = dw.world.sim
+        digest = sim.digest()
+        steps = sim.steps
+        dw.close()
+    digest = hashlib.sha256((digest + repr(key) + repr(sorted(probes))).encode()).hexdigest()
+    return {"violations": violations, "digest": digest, "nontrivial": nontrivial, "key": key, "probes": probes, "faults": faults,
+            "steps": steps, "sim_seconds": 0.0, "incomplete": incomplete, "sample": sample, "states": [], "extra": {"tuples": [key] if key else []}}
+
+
 def run(case):
     cfg = case["cfg"]
+    if cfg.get("mode") == "overlap":
+        return run_overlap(case)
     dw = diskutil.DiskWorld(cfg["version"], cfg["fmt"], bufsize=cfg["bufsize"], relpath=cfg.get("relpath"))
     violations, probes, faults = [], {}, {}
     incomplete = None
